@@ -267,6 +267,12 @@ func waitingPullDeadline(t *testing.T, st *Stats) {
 			}
 			if err != nil || n != 1 || res.Deliveries[0].ID != r.Delivered[1].ID {
 				what = fmt.Sprintf("a Pull waiting since %s returned %v / %d deliveries when the retry deadline of an outstanding message passed; expected exactly that message", time.Since(start), err, n)
+			} else if d, derr := w.Client.Delivery.Get(qctx, res.Deliveries[0].ID); derr == nil {
+				// the new lease counts from the hand-out, not from when the pull began to wait
+				min := NominalNs(p64(Sec), nil, d.Attempts)
+				if lease := ns(d.AttemptAt) - ns(time.Now()); lease < min-2-min/(1<<40)-int64(300*time.Millisecond) {
+					what = fmt.Sprintf("a Pull that had waited %s was handed a message as attempt %d; its new retry deadline is only %d ns after the hand-out, the retry policy (minimum 1 s) gives at least %d ns", time.Since(start), d.Attempts, lease, min)
+				}
 			}
 		default:
 			what = fmt.Sprintf("a Pull that has been waiting for %s was not handed the message whose retry deadline passed 200 ms ago (another outstanding message of the subscription is due in a minute)", time.Since(start))
